@@ -867,10 +867,14 @@ const ALIAS_EXPANSIONS: &[(&str, &str, &str)] = &[
 
 fn alias_checks(ctx: &mut Ctx, rep: &mut Rep) {
     for (kw, expansion, sample) in ALIAS_EXPANSIONS {
-        for tail in ["", " | count by status", " | fields status, url", " | limit 1", " | where status == 200"] {
-            if *kw == "testmultioperator" && !tail.is_empty() && !tail.contains("limit") {
-                continue;
-            }
+        // stages written after the alias act on what the alias's last operator produced: rows for the
+        // parse aliases, the aggregate's table for the multi-operator alias; a prefix stage comes first
+        let tails: &[&str] = if *kw == "testmultioperator" {
+            &["", " | limit 1", " | limit 5", " | where _count > 1", " | _count * 2 as d", " | total(_count) as t", " | fields - _count", " | sort by _count", " | count"]
+        } else {
+            &["", " | count by status", " | fields status, url", " | limit 1", " | where status == 200", " | count | limit 1", " | sort by status | limit 1"]
+        };
+        for tail in tails.iter().copied() {
             let q1 = format!("* | {}{}", kw, tail);
             let q2 = format!("* | {}{}", expansion, tail);
             let mut inputs: Vec<Vec<u8>> = vec![sample.as_bytes().to_vec()];
